@@ -1,0 +1,65 @@
+// This Source Code Form is subject to the terms of the Mozilla Public
+// License, v. 2.0. If a copy of the MPL was not distributed with this
+// file, You can obtain one at http://mozilla.org/MPL/2.0/.
+
+//go:build verif
+
+package transform
+
+// Contracts for the deductive verifier in /verif (govc). Comment-only file: it
+// adds no code. Lines starting with //@ are parsed by govc; see /verif/DESIGN.md.
+
+// C07 (finalizer ordering in controller-driven lifecycles), transform controller. Its two passes
+// iterate with range-over-func; go/ssa turns each loop body into a function of its own (named $1),
+// and the obligations are stated per iteration on those bodies. The trace facts (tdPtr/tdReady,
+// gonePtr/goneOK, finPtr/finOK) are ghost state written by the interface contracts of owned.Writer
+// (pkg/state/owned/zz_contracts_verif.go).
+
+//@ pred wired(ctrl *Controller[Input, Output], runState *runState) := ctrl != nil && runState != nil && runState.touchedOutputIDs != nil && runState.removeInputFinalizers != nil &&
+//@   ctrl.mapFunc != nil && ctrl.transformFunc != nil && ctrl.finalizerRemovalFunc != nil
+//@ ghostvar finHeld bool
+//@ ghostvar removalOK bool
+
+// First pass, one input: before the output is written (WriterModify), the controller's finalizer was
+// in the input's finalizer list as read, or AddFinalizer on that very input has just succeeded.
+// (assumed of the user's mapping function: a present output is not nil)
+//@ func (*Controller[Input, Output]).processInputs$1
+//@   props C07
+//@   assume [wired] wired(ctrl, runState) && r != nil && logger != nil && arg0 != nil
+// (assumed: the user's functions do not rewire the controller or this run's bookkeeping maps)
+//@   at ctrl.mapFunc #1
+//@     assume_result [user-function-leaves-wiring-alone] wired(ctrl, runState)
+//@   at Get #1
+//@     assume_result [mapped-output-present-means-nonnil] result1 ==> result0 != nil
+//@   at Add #1
+//@     ghost_here finHeld = (exists k int :: 0 <= k && k < len(mdOf(in).fins) && mdOf(in).fins[k] == ctrl.ControllerName)
+//@   at WriterModify #1
+//@     assert [input-finalizer-before-output] ctrl.options.inputFinalizers ==> (finHeld || (finOK && finPtr.blk == mdOf(in).blk && finPtr.off == mdOf(in).off))
+//@ func (*Controller[Input, Output]).processInputs$1$1
+//@   props C07
+//@   assume [wired] ctrl != nil && ctrl.transformFunc != nil
+
+// A tearing-down input: its finalizer is scheduled for release (an entry in removeInputFinalizers)
+// only after the removal handler returned nil in this very call.
+//@ func (*Controller[Input, Output]).reconcileTearingDownInput
+//@   props C07
+//@   requires [wired] wired(ctrl, runState)
+//@   requires [runtime] r != nil && logger != nil
+//@   requires [input] in != nil
+//@   requires [output] mappedOut != nil
+//@   at ctrl.finalizerRemovalFunc #1
+//@     assume_result [user-function-leaves-wiring-alone] wired(ctrl, runState)
+//@     ghost_result removalOK = (result == nil)
+//@   at return #4
+//@     assert [release-scheduled-only-after-removal-handler-succeeded] removalOK
+
+// Second pass, one output: it is destroyed only after Teardown reported it ready, and an input
+// finalizer stays scheduled for release under this output's ID only if this output is gone (Destroy
+// succeeded or reported not-found); every other way out of the body drops the entry.
+//@ func (*Controller[Input, Output]).cleanupOutputs$1
+//@   props C07
+//@   assume [wired] ctrl != nil && r != nil && runState != nil && logger != nil && runState.touchedOutputIDs != nil && runState.removeInputFinalizers != nil && arg0 != nil
+//@   at Destroy #1
+//@     assert [output-destroyed-only-when-teardown-ready] tdReady && tdPtr.blk == mdOf(out).blk && tdPtr.off == mdOf(out).off
+//@   ensures [input-finalizer-release-kept-only-if-output-gone] in(mdOf(arg0).id, runState.removeInputFinalizers) ==>
+//@     (goneOK && gonePtr.blk == mdOf(arg0).blk && gonePtr.off == mdOf(arg0).off)
